@@ -455,3 +455,10 @@ Proof.
   - vm_compute. reflexivity.
   - intros [A _]. vm_compute in A. discriminate A.
 Qed.
+
+(* ------------------------------------------------------------------ hemisphere letters *)
+(* the first character of each string is E/N exactly when the value is >= 0, W/S otherwise *)
+Lemma qdms_letters c :
+  String.get 0 (fst (to_qdms c false)) = Some (if Qle_bool 0 (clon c) then "E"%char else "W"%char) /\
+  String.get 0 (snd (to_qdms c false)) = Some (if Qle_bool 0 (clat c) then "N"%char else "S"%char).
+Proof. split; reflexivity. Qed.
